@@ -5,33 +5,18 @@ import WinterProofs.Lemmas.C06Spec
 namespace WinterProofs.C06L
 open Model Model.Serde Model.Parse
 
-theorem spec_bind0 {c k : Nat} {Q1 : α → Prop} {Q2 : β → Prop} {d : PDec α} {f : α → PDec β}
-    (h1 : Spec c 0 Q1 d) (h2 : ∀ x, Q1 x → Spec c k Q2 (f x)) : Spec c k Q2 (d >>= f) := by
-  have := spec_bind h1 h2
-  simpa using this
-
-theorem spec_bindk {c k k1 k2 : Nat} {Q1 : α → Prop} {Q2 : β → Prop} {d : PDec α} {f : α → PDec β}
-    (h1 : Spec c k1 Q1 d) (h2 : ∀ x, Q1 x → Spec c k2 Q2 (f x)) (hk : k1 + k2 ≤ k) : Spec c k Q2 (d >>= f) :=
-  spec_weaken (spec_bind h1 h2) hk (fun _ h => h)
-
-theorem spec_ite {c k : Nat} {Q : α → Prop} {p : Prop} [Decidable p] {t e : PDec α}
-    (ht : p → Spec c k Q t) (he : ¬ p → Spec c k Q e) : Spec c k Q (if p then t else e) := by
-  by_cases h : p
-  · simp only [h, if_true]; exact ht h
-  · simp only [h, if_false]; exact he h
-
 theorem pow2_log (e : Nat) : pow2 (2 ^ e) = true := by
   simp [pow2, Nat.log2_two_pow]
 
 open Gen.Limits in
-theorem spec_pOptions {c : Nat} : Spec c 0 (fun o => o.wf = true) pOptions := by
+theorem spec_pOptions {c : Nat} : Spec c 0 0 (fun o => o.wf = true) pOptions := by
   unfold pOptions
-  refine spec_bind0 spec_u8 ?_; intro nq _
-  refine spec_bind0 spec_u8 ?_; intro bl _
-  refine spec_bind0 spec_u8 ?_; intro gr _
-  refine spec_bind0 (spec_lift dspec_fext) ?_; intro fe hfe
-  refine spec_bind0 spec_u8 ?_; intro ff _
-  refine spec_bind0 spec_u8 ?_; intro rd _
+  refine spec_seq spec_u8 ?_; intro nq _
+  refine spec_seq spec_u8 ?_; intro bl _
+  refine spec_seq spec_u8 ?_; intro gr _
+  refine spec_seq (spec_lift0 dspec_fext) ?_; intro fe hfe
+  refine spec_seq spec_u8 ?_; intro ff _
+  refine spec_seq spec_u8 ?_; intro rd _
   refine spec_ite (fun _ => spec_fail) ?_; intro h1
   refine spec_ite (fun _ => spec_fail) ?_; intro h2
   refine spec_ite (fun _ => spec_fail) ?_; intro h3
@@ -47,25 +32,25 @@ theorem spec_pOptions {c : Nat} : Spec c 0 (fun o => o.wf = true) pOptions := by
 
 open Gen.Limits in
 theorem spec_pTraceInfo {c : Nat} (hc : 1 ≤ c) :
-    Spec c 0 (fun t => t.wf = true ∧ BytesOk t.metadata) pTraceInfo := by
+    Spec c 0 0 (fun t => t.wf = true ∧ BytesOk t.metadata) pTraceInfo := by
   unfold pTraceInfo
-  refine spec_bind0 spec_u8 ?_; intro main _
+  refine spec_seq spec_u8 ?_; intro main _
   refine spec_ite (fun _ => spec_fail) ?_; intro h1
-  refine spec_bind0 spec_u8 ?_; intro aux _
+  refine spec_seq spec_u8 ?_; intro aux _
   refine spec_ite (fun _ => spec_fail) ?_; intro h2
-  refine spec_bind0 spec_u8 ?_; intro rands _
+  refine spec_seq spec_u8 ?_; intro rands _
   refine spec_ite (fun _ => spec_fail) ?_; intro h3
   refine spec_ite (fun _ => spec_fail) ?_; intro h4
-  refine spec_bind0 spec_u8 ?_; intro e _
+  refine spec_seq spec_u8 ?_; intro e _
   refine spec_ite (fun _ => spec_fail) ?_; intro h5
   refine spec_ite (fun _ => spec_fail) ?_; intro h6
-  refine spec_bind0 (spec_lift (dspec_readUInt 2)) ?_; intro n hn
-  have hmd : Spec c 0 (fun md : Bytes => md.length ≤ 65535 ∧ BytesOk md)
+  refine spec_seq (spec_lift0 (dspec_readUInt 2)) ?_; intro n hn
+  have hmd : Spec c 0 0 (fun md : Bytes => md.length ≤ 65535 ∧ BytesOk md)
       (if n ≠ 0 then readVec n else pure []) := by
     refine spec_ite (fun _ => ?_) (fun _ => ?_)
-    · exact spec_weaken (spec_readVec hc n) (Nat.le_refl 0) (fun s hs => ⟨by rw [hs.1]; omega, hs.2⟩)
+    · exact spec_weaken (spec_readVec hc n) (Int.le_refl 0) (Nat.le_refl 0) (fun s hs => ⟨by rw [hs.1]; omega, hs.2⟩)
     · exact spec_pure ⟨by simp, BytesOk.nil⟩
-  refine spec_bind0 hmd ?_; intro md hmd
+  refine spec_seq hmd ?_; intro md hmd
   have he1 : 8 ≤ 2 ^ e := by
     calc 8 = 2 ^ 3 := by decide
       _ ≤ 2 ^ e := Nat.pow_le_pow_right (by omega) (by omega)
@@ -108,110 +93,91 @@ def ProofOk (p : Proof) : Prop :=
   p.traceQueries.length = p.context.traceInfo.numSegments ∧ (∀ q ∈ p.traceQueries, QueriesOk q) ∧
   QueriesOk p.constraintQueries ∧ OodOk p.oodFrame ∧ FriOk p.friProof
 
-theorem spec_pContext {c : Nat} (hc : 1 ≤ c) : Spec c 0 CtxOk pContext := by
+theorem spec_pContext {c : Nat} (hc : 1 ≤ c) : Spec c 0 0 CtxOk pContext := by
   unfold pContext
-  refine spec_bind0 (spec_pTraceInfo hc) ?_; intro ti hti
-  refine spec_bind0 spec_u8 ?_; intro n _
+  refine spec_seq (spec_pTraceInfo hc) ?_; intro ti hti
+  refine spec_seq spec_u8 ?_; intro n _
   refine spec_ite (fun _ => spec_fail) ?_; intro _
-  refine spec_bind0 (spec_readVec hc n) ?_; intro m hm
-  refine spec_bind0 spec_pOptions ?_; intro o ho
+  refine spec_seq (spec_readVec hc n) ?_; intro m hm
+  refine spec_seq spec_pOptions ?_; intro o ho
   refine spec_ite (fun _ => spec_fail) ?_; intro h1
   refine spec_ite (fun _ => spec_fail) ?_; intro h2
   exact spec_pure ⟨hti.1, ho, Nat.le_of_not_lt h1, Nat.le_of_not_lt h2, hm.2, hti.2⟩
 
-theorem spec_pQueries {c : Nat} (hc : 1 ≤ c) : Spec c 0 QueriesOk pQueries := by
+theorem spec_pQueries {c : Nat} (hc : 1 ≤ c) : Spec c 0 0 QueriesOk pQueries := by
   unfold pQueries
-  refine spec_bind0 (spec_pBlock hc 4) ?_; intro v hv
-  refine spec_bind0 (spec_pBlock hc 4) ?_; intro p hp
+  refine spec_seq (spec_pBlock hc 4) ?_; intro v hv
+  refine spec_seq (spec_pBlock hc 4) ?_; intro p hp
   exact spec_pure ⟨hv.2, hp.2⟩
 
-theorem spec_pOod {c : Nat} (hc : 1 ≤ c) : Spec c 0 OodOk pOod := by
+theorem spec_pOod {c : Nat} (hc : 1 ≤ c) : Spec c 0 0 OodOk pOod := by
   unfold pOod
-  refine spec_bind0 (spec_pBlock hc 2) ?_; intro t ht
-  refine spec_bind0 (spec_pBlock hc 2) ?_; intro l hl
-  refine spec_bind0 (spec_pBlock hc 2) ?_; intro e he
+  refine spec_seq (spec_pBlock hc 2) ?_; intro t ht
+  refine spec_seq (spec_pBlock hc 2) ?_; intro l hl
+  refine spec_seq (spec_pBlock hc 2) ?_; intro e he
   exact spec_pure ⟨ht.2, hl.2, he.2⟩
 
-theorem spec_pFriLayer {c : Nat} (hc : 1 ≤ c) : Spec c 0 LayerOk pFriLayer := by
+theorem spec_pFriLayer {c : Nat} (hc : 1 ≤ c) : Spec c 0 0 LayerOk pFriLayer := by
   unfold pFriLayer
-  refine spec_bind0 (spec_lift (dspec_readUInt 4)) ?_; intro n _
+  refine spec_seq (spec_lift0 (dspec_readUInt 4)) ?_; intro n _
   refine spec_ite (fun _ => spec_fail) ?_; intro _
-  refine spec_bind0 (spec_readVec hc n) ?_; intro v hv
-  refine spec_bind0 (spec_pBlock hc 4) ?_; intro p hp
+  refine spec_seq (spec_readVec hc n) ?_; intro v hv
+  refine spec_seq (spec_pBlock hc 4) ?_; intro p hp
   exact spec_pure ⟨hv.2, hp.2⟩
 
-theorem prealloc_le (size n : Nat) : preallocCount size n * size ≤ MAX_PREALLOC := by
-  unfold preallocCount
-  by_cases hs : size = 0
-  · subst hs; simp
-  · have h1 : max size 1 = size := by omega
-    rw [h1]
-    calc min n (MAX_PREALLOC / size) * size ≤ (MAX_PREALLOC / size) * size :=
-          Nat.mul_le_mul_right _ (Nat.min_le_right _ _)
-      _ ≤ MAX_PREALLOC := Nat.div_mul_le_self _ _
-
-/-- `read_many`: the bounded pre-allocation is the only allocation that is not paid by consumed bytes, provided
-    the elements pay for themselves (and for the growth of the vector when more than the pre-allocated number
-    are requested) -/
-theorem spec_readManyA {c : Nat} {Q : α → Prop} {d : PDec α} (size n : Nat) (h : Spec c 0 Q d)
-    (hg : ¬ n ≤ MAX_PREALLOC / max size 1 → Spec c 0 Q (growing size d)) :
-    Spec c MAX_PREALLOC (fun xs => xs.length = n ∧ ∀ x ∈ xs, Q x) (readManyA size d n) := by
-  unfold readManyA
-  refine spec_bindk (k2 := 0) (spec_alloc _) (fun _ _ => ?_) (by have := prealloc_le size n; omega)
-  by_cases hn : n ≤ MAX_PREALLOC / max size 1
-  · simp only [hn, if_true]; exact spec_loopMany h n
-  · simp only [hn, if_false]; exact spec_loopMany (hg hn) n
-
-theorem spec_pFri {c : Nat} (hc : 1 ≤ c) : Spec c MAX_PREALLOC FriOk pFri := by
+theorem spec_pFri {c : Nat} (hc : 1 ≤ c) : Spec c MAX_PREALLOC MAX_PREALLOC FriOk pFri := by
   unfold pFri
-  refine spec_bind0 spec_u8 ?_; intro n hn
+  refine spec_seq spec_u8 ?_; intro n hn
   have hcap : MAX_PREALLOC / max SIZE_TWO_VECS 1 = 1365 := by decide
-  have hl := spec_readManyA (c := c) SIZE_TWO_VECS n (spec_pFriLayer hc) (fun h => absurd (by
+  have hl := spec_readManyA (c := c) SIZE_TWO_VECS n (spec_pFriLayer hc) (Int.le_refl 0) (fun h => absurd (by
     rw [hcap]; omega) h)
-  refine spec_bindk hl (fun ls hls => ?_) (Nat.le_refl (MAX_PREALLOC + 0))
-  refine spec_bind0 (spec_pBlock hc 2) ?_; intro r hr
-  refine spec_bind0 spec_u8 ?_; intro np _
+  refine spec_bindk (k2 := 0) (kf2 := 0) hl (fun ls hls => ?_) (by omega) (by omega) (by omega)
+  refine spec_seq (spec_pBlock hc 2) ?_; intro r hr
+  refine spec_seq spec_u8 ?_; intro np _
   refine spec_ite (fun _ => spec_fail) ?_; intro hnp
   exact spec_pure ⟨hls.2, by rw [hls.1]; exact hn, hr.2, Nat.lt_of_not_le hnp⟩
 
-theorem spec_growing_u8 {c : Nat} (hc : 2 ≤ c) : Spec c 0 (fun x => x < 256) (growing 1 u8) := by
-  unfold growing u8
-  exact spec_lift_pay dspec_readU8 (by omega)
-
-theorem spec_pGkr {c : Nat} (hc : 2 ≤ c) : Spec c MAX_PREALLOC (fun _ => True) pGkr := by
+theorem spec_pGkr {c : Nat} (hc : 3 ≤ c) : Spec c 0 MAX_PREALLOC (fun _ => True) pGkr := by
   unfold pGkr
-  refine spec_bind0 (spec_lift dspec_readBool) ?_; intro b _
+  refine spec_seq (spec_lift0 dspec_readBool) ?_; intro b _
   cases b with
-  | false => simp only [Bool.false_eq_true, if_false]; exact spec_weaken (spec_pure trivial) (Nat.zero_le _) (fun _ h => h)
+  | false =>
+    simp only [Bool.false_eq_true, if_false]
+    exact spec_weaken (spec_pure trivial) (Int.le_refl 0) (Nat.zero_le _) (fun _ h => h)
   | true =>
     simp only [if_true]
-    refine spec_bind0 (spec_lift dspec_readUsize) ?_; intro n _
-    have hv := spec_readManyA (c := c) 1 n spec_u8 (fun _ => spec_growing_u8 hc)
-    refine spec_bindk hv (fun v _ => ?_) (Nat.le_refl (MAX_PREALLOC + 0))
-    exact spec_pure trivial
+    refine spec_seq (spec_lift0 dspec_readUsize) ?_; intro n _
+    have hv := spec_readManyA_lift (c := c) 1 n dspec_readU8 (by omega)
+    exact spec_bindk hv (fun v _ => spec_pure trivial) (Int.le_refl (0 + 0)) (Nat.le_refl _) (by omega)
 
-/-- the constant part of the allocation bound of `Proof::from_bytes`: the capacity for the query sets of at most
-    two trace segments and the two bounded `read_many` pre-allocations (FRI layers, GKR proof) -/
-def PARSE_C0 : Nat := 2 * SIZE_TWO_VECS + MAX_PREALLOC + MAX_PREALLOC
+/-- the constant part of the allocation bound of `Proof::from_bytes` on success: the capacity for the query sets
+    of at most two trace segments and the bounded pre-allocation of the FRI layer vector -/
+def PARSE_C0 : Nat := 2 * SIZE_TWO_VECS + MAX_PREALLOC
+
+/-- on failure: additionally the bounded pre-allocation of the GKR byte vector -/
+def PARSE_CF : Nat := PARSE_C0 + MAX_PREALLOC
 
 theorem numSegments_le (t : TraceInfo) : t.numSegments ≤ 2 := by
   unfold TraceInfo.numSegments; split <;> omega
 
-theorem spec_pProof {c : Nat} (hc : 2 ≤ c) : Spec c PARSE_C0 ProofOk pProof := by
+theorem spec_pProof {c : Nat} (hc : 3 ≤ c) : Spec c PARSE_C0 PARSE_CF ProofOk pProof := by
   have hc1 : 1 ≤ c := by omega
   unfold pProof
-  refine spec_bind0 (spec_pContext hc1) ?_; intro ctx hctx
-  refine spec_bind0 spec_u8 ?_; intro nuq hnuq
-  refine spec_bind0 (spec_pBlock hc1 2) ?_; intro cm hcm
-  refine spec_bindk (k1 := 2 * SIZE_TWO_VECS) (k2 := MAX_PREALLOC + MAX_PREALLOC)
-    (spec_weaken (spec_alloc _) (Nat.mul_le_mul_right _ (numSegments_le _)) (fun _ h => h)) (fun _ _ => ?_)
-    (by unfold PARSE_C0; omega)
-  refine spec_bind0 (spec_loopMany (spec_pQueries hc1) _) ?_; intro tq htq
-  refine spec_bind0 (spec_pQueries hc1) ?_; intro cq hcq
-  refine spec_bind0 (spec_pOod hc1) ?_; intro ood hood
-  refine spec_bindk (spec_pFri hc1) (fun fri hfri => ?_) (Nat.le_refl _)
-  refine spec_bind0 (spec_lift (dspec_readUInt 8)) ?_; intro nonce _
-  refine spec_bindk (spec_pGkr hc) (fun gkr _ => ?_) (Nat.le_refl (MAX_PREALLOC + 0))
-  exact spec_pure ⟨hctx, hnuq, hcm.2, htq.1, htq.2, hcq, hood, hfri⟩
+  refine spec_seq (spec_pContext hc1) ?_; intro ctx hctx
+  refine spec_seq spec_u8 ?_; intro nuq hnuq
+  refine spec_seq (spec_pBlock hc1 2) ?_; intro cm hcm
+  have hseg : ctx.traceInfo.numSegments * SIZE_TWO_VECS ≤ 2 * SIZE_TWO_VECS :=
+    Nat.mul_le_mul_right _ (numSegments_le _)
+  refine spec_bindk (k2 := MAX_PREALLOC) (kf2 := MAX_PREALLOC + MAX_PREALLOC) (spec_alloc _) (fun _ _ => ?_)
+    (by unfold PARSE_C0; omega) (Nat.zero_le _) (by unfold PARSE_CF PARSE_C0; omega)
+  have hq := spec_weaken (k' := 0) (spec_loopMany (spec_pQueries hc1) (Int.le_refl 0) ctx.traceInfo.numSegments)
+    (by simp) (Nat.le_refl 0) (fun _ h => h)
+  refine spec_seq hq ?_; intro tq htq
+  refine spec_seq (spec_pQueries hc1) ?_; intro cq hcq
+  refine spec_seq (spec_pOod hc1) ?_; intro ood hood
+  refine spec_bindk (k2 := 0) (kf2 := MAX_PREALLOC) (spec_pFri hc1) (fun fri hfri => ?_) (by omega) (by omega) (by omega)
+  refine spec_seq (spec_lift0 (dspec_readUInt 8)) ?_; intro nonce _
+  exact spec_bindk (spec_pGkr hc) (fun gkr _ =>
+    spec_pure ⟨hctx, hnuq, hcm.2, htq.1, htq.2, hcq, hood, hfri⟩) (Int.le_refl (0 + 0)) (Nat.le_refl _) (by omega)
 
 end WinterProofs.C06L
